@@ -292,6 +292,62 @@ func (w *c17Worker) Run(path []LOp) (bfs.Outcome, error) {
 	return out, nil
 }
 
+// c17RealClock lets real time pass instead of moving the recorded start of the sessions: whatever the instance has
+// scheduled on the real clock for a generation that has ended must not touch the next generation of the same name. With
+// a timeout of 2 s: prepare, abort, prepare again after 1.2 s, and 1.2 s later (the first generation's deadline has
+// passed, the second one is 1.2 s old) the second generation must still be there. The verdict is given only if the
+// process was scheduled on time (the second generation is then well inside its own timeout); otherwise the run is
+// recorded as inconclusive.
+func c17RealClock(run *ev.Run) (map[string]any, error) {
+	const timeout = 2 * time.Second
+	extra := map[uint64]string{}
+	for _, id := range []uint64{1, 3} {
+		extra[id] = fmt.Sprintf("%s:%d", rig.PeerName(id), 8000+id)
+	}
+	c, err := rig.NewCluster(rig.ClusterOpts{IDs: []uint64{c17Self}, ExtraPeers: extra, GenTimeout: timeout})
+	if err != nil {
+		return nil, err
+	}
+	defer c.Close()
+	node := c.Nodes[c17Self]
+	parts := make([]*core.Endpoint, len(c17Participants))
+	for i, id := range c17Participants {
+		parts[i] = &core.Endpoint{ID: id, Name: rig.PeerName(id), Port: uint32(8000 + id)}
+	}
+	res := map[string]any{"timeout": timeout.String()}
+	for _, end := range []string{"abort"} {
+		acct := fmt.Sprintf("%s/real-%s", rig.DistWallet, end)
+		t0 := time.Now()
+		if err := node.RecvPrepare(rig.PeerName(1), acct, 2, parts); err != nil {
+			return nil, fmt.Errorf("real clock: first prepare refused: %v", err)
+		}
+		if err := node.RecvAbort(rig.PeerName(1), acct); err != nil {
+			return nil, fmt.Errorf("real clock: abort refused: %v", err)
+		}
+		time.Sleep(time.Until(t0.Add(1200 * time.Millisecond)))
+		t1 := time.Now()
+		if err := node.RecvPrepare(rig.PeerName(1), acct, 2, parts); err != nil {
+			return nil, fmt.Errorf("real clock: second prepare refused: %v", err)
+		}
+		time.Sleep(time.Until(t0.Add(2400 * time.Millisecond)))
+		probeStart := time.Since(t0)
+		present, _ := sessionOf(node, acct)
+		err := node.RecvAbort(rig.PeerName(1), acct)
+		// Judged only if, measured after the probe has returned, the second generation was still well inside its own
+		// timeout, and the probe started after the first generation's deadline.
+		age := time.Since(t1)
+		judged := age < timeout-300*time.Millisecond && probeStart > timeout+100*time.Millisecond
+		res["second_generation_age_at_probe"] = age.String()
+		res["judged"] = judged
+		if judged && (!present || err != nil) {
+			run.Violate("real-clock:young-generation-gone",
+				fmt.Sprintf("timeout %s: prepare, abort, prepare again 1.2 s later; %s after the second prepare (the first generation's deadline has passed) the second generation is gone (in the session table: %v; abort: %v) although nothing ended it and it is younger than the timeout", timeout, age.Round(time.Millisecond), present, err),
+				map[string]any{"check": "C17", "real_clock": true})
+		}
+	}
+	return res, nil
+}
+
 // C17 explores the session lifecycle of one instance.
 func C17(tier string) int {
 	run := ev.NewRun("C17", tier, "model_checking")
@@ -344,6 +400,11 @@ func C17(tier string) int {
 		run.HarnessErr = err
 		return run.Finish()
 	}
+	realTime, err := c17RealClock(run)
+	if err != nil {
+		run.HarnessErr = err
+		return run.Finish()
+	}
 	conc, err := c17Concurrent(run, time.Now().Add(budget))
 	if err != nil {
 		run.HarnessErr = err
@@ -355,6 +416,7 @@ func C17(tier string) int {
 	}
 	run.Coverage = map[string]any{
 		"concurrent_delivery":           conc,
+		"real_clock":                    realTime,
 		"states":                        r.States,
 		"transitions":                   r.Transitions,
 		"traces_validated_against_impl": r.Transitions,
